@@ -9,6 +9,7 @@ import SpoxModel.Lemmas.BuildAlgPlaced
 import SpoxModel.Lemmas.BuildAlgLexical
 import SpoxModel.Lemmas.BuildAlgArgsReq
 import SpoxModel.Lemmas.BuildAlgArgs
+import SpoxModel.Lemmas.BuildAlgDfsMany
 import SpoxModel.Lemmas.BridgeWalk
 import SpoxModel.Lemmas.BridgeFacts
 import SpoxModel.Props.C01
@@ -172,6 +173,22 @@ theorem visit_spec_inputs (p : Prog) (hwf : WF p) (g : Nat) :
   refine ⟨(BuildAlg.visit_spec (rankV p) hrank p.fuel _ [] hf (closed_nil _)).1,
     visit_nodup (rankV p) hrank p.fuel _ [] List.nodup_nil,
     fun x => mem_visit_iff (rankV p) hrank p.fuel _ x hf⟩
+
+/-- **dfs_many_spec** (round 10): `iterative_dfs(sources, adj)` as the driver runs it against the real
+    function (`visitMany`: one `visit` per source, shared visited list), on ANY graph with a rank
+    function (a DAG — for programs: creation order): the returned post-order lists every vertex after
+    all of its successors, lists nothing twice, and lists exactly what the sources reach. -/
+theorem dfs_many_spec {α : Type} [DecidableEq α] (adj : α → List α) (rank : α → Nat)
+    (hrank : ∀ v, ∀ w ∈ adj v, rank w < rank v) (fuel : Nat) (sources : List α)
+    (hf : ∀ s ∈ sources, rank s < fuel) :
+    Closed adj (visitMany adj fuel sources []) ∧ (visitMany adj fuel sources []).Nodup ∧
+    ∀ x, x ∈ visitMany adj fuel sources [] ↔ ∃ s ∈ sources, Reach adj s x := by
+  obtain ⟨c, n, _, i⟩ := visitMany_spec rank hrank fuel sources [] hf (closed_nil _) List.nodup_nil
+  exact ⟨c, n, fun x => by rw [i x]; simp⟩
+
+/-- the diamond with a duplicate successor of `lib_dfstie` (3 → 1, 0, 2, 2; 2 → 0, 1; 1 → 0), two sources -/
+example : visitMany (fun v => ([[], [0], [0, 1], [1, 0, 2, 2]][v]?).getD []) 6 [1, 3] [] = [0, 1, 2, 3] := by
+  decide
 
 /-! ### leaks to an outer scope are rejected at build time -/
 
